@@ -1077,6 +1077,27 @@ class HState:
                     if "STATUS" in form and mbm is not None and not mbm.noselect:
                         if status.get(nm) != len(mbm.msgs):
                             self.fail("C17.list-status", dict(det), len(mbm.msgs), status.get(nm))
+        # RFC 5258 RECURSIVEMATCH: besides the subscribed names that match, an existing name that matches the pattern and
+        # has a subscribed descendant which the pattern does not match is listed too (with CHILDINFO)
+        for ref, pat in (("", "%"), ("", "a"), ("", "*")):
+            form = f'LIST (SUBSCRIBED RECURSIVEMATCH) {_q(ref)} {_q(pat)}'
+            r, resps = o.do(form)
+            if r is None or r.typ != "OK":
+                self.fail("C17.list-failed", {"cmd": "LIST (SUBSCRIBED RECURSIVEMATCH)", "ref": ref, "pat": pat}, "OK", str(r))
+                continue
+            got = set()
+            for x in resps:
+                if x.kind == "untagged" and x.typ == "LIST" and len(x.data) >= 3:
+                    nm = x.data[2]
+                    got.add(bytes(nm).decode("latin-1") if isinstance(nm, bytes) else str(nm))
+            direct = set(NS.list_expect(self.model, ref, pat, lsub=True))
+            allmatch = set(NS.list_expect(self.model, ref, pat, lsub=False))
+            sub_nomatch = [n for n, mb_ in self.model.mboxes.items() if mb_.subscribed and n not in direct]
+            via_child = {a for a in allmatch if a not in direct and any(d.startswith(a + "/") or (a == "INBOX" and d.lower().startswith("inbox/")) for d in sub_nomatch)}
+            want = direct | via_child
+            if got != want:
+                self.fail("C17.list-names", {"cmd": "LIST-EXTENDED", "form": "(SUBSCRIBED RECURSIVEMATCH)", "pat": pat, "ref": ref,
+                                             "missing": sorted(want - got)[:3], "extra": sorted(got - want)[:3]}, sorted(want), sorted(got))
         # a deleted mailbox is not selectable; an existing one is
         for name in self.cfg.get("names", ()):
             mb = self.model.mb(name)
